@@ -182,6 +182,8 @@ def h_alpha_policy(sk, nd, bsupport_seed):
         val = lambda vec: S.Max([S.Sum(alphas[d][i] * vec[i] for i in range(len(sl))) for d in range(nd)])
         S.check('AlphaVectorPolicy.value:max_d-alpha_d.b', S.eq(pol.value(bel), val(bl)))
         S.check('AlphaVectorPolicy.value:accepts-a-distribution', S.eq(pol.value(DictDistribution(b)), val(bl)))
+        rev = DictDistribution(dict(reversed(list(b.items()))))         # same belief, keys in the opposite order of the state list
+        S.check('AlphaVectorPolicy.value:a-distribution-is-read-by-state,not-by-position', S.eq(pol.value(rev), val(bl)))
         want = {}
         for a in al:
             imm = S.Sum(b[s] * S.Sum(v.T[(s, a, n)] * v.R[(s, a, n)] for n in v.skel.supp[(s, a)]) for s in sl)
@@ -196,7 +198,7 @@ def h_alpha_policy(sk, nd, bsupport_seed):
                 fut = fut + Z * val(post)
             want[a] = imm + v.gamma * fut
         S.check('AlphaVectorPolicy.action_value:belief-reward+discounted-expected-value-of-the-Bayes-posteriors', S.And(
-            [S.eq(pol.action_value(bel, a), want[a]) for a in al]))
+            [S.eq(pol.action_value(bel, a), want[a]) for a in al] + [S.eq(pol.action_value(rev, a), want[a]) for a in al]))
         d = pol.action_dist(bel)
         mx = S.Max(list(want.values()))
         best = [a for a in al if bool(want[a] == mx)]
